@@ -95,3 +95,40 @@ package xfn
 //@   invariant [C04:visited-are-collected-or-installed] forall k:string :: k in visited ==> (!(k in r.conns) || functionExists[k])
 //@   invariant [C04:only-visited-removed] forall k:string :: old(k in r.conns) && !(k in visited) ==> k in r.conns
 //@   invariant [C04:installed-kept] forall k:string :: old(k in r.conns) && functionExists[k] ==> k in r.conns
+
+// C03 / C04: the gRPC client behind every pipeline step. A response is reported only when an RPC
+// produced one: the v1 RPC returned nil, or - only after the v1 RPC failed with Unimplemented -
+// the v1beta1 RPC returned nil. A failed RPC is never turned into an (empty) response: the
+// composer would take it for a step that wants nothing and garbage collect everything.
+//
+//@ func (*xfn.BetaFallBackFunctionRunnerServiceClient).RunFunction
+//@ props C03 C04
+//@ requires c != nil
+//@ ghost v1Called bool = false
+//@ ghost v1Failed bool = false
+//@ ghost betaCalled bool = false
+//@ ghost betaFailed bool = false
+//@ let $v1rsp = result (v1.FunctionRunnerServiceClient).RunFunction
+//@ site (v1.FunctionRunnerServiceClient).RunFunction(_, _, $r, $o...) as v1-rpc
+//@   assert [C04:function-is-sent-the-callers-request] $r == req
+//@   update v1Called = true
+//@   update v1Failed = err != nil
+//@ optional site (v1beta1.FunctionRunnerServiceClient).RunFunction(_, _, $r, $o...) as v1beta1-rpc
+//@   assert [C03:v1beta1-is-tried-only-after-v1-failed] v1Called && v1Failed
+//@   update betaCalled = true
+//@   update betaFailed = err != nil
+//@ ensures [C03,C04:a-failed-rpc-is-never-reported-as-a-response] err == nil ==> v1Called && (!v1Failed || (betaCalled && !betaFailed))
+//@ ensures [C03,C04:the-v1-response-is-returned-as-is] err == nil && !v1Failed ==> result == $v1rsp
+
+//@ func (*xfn.PackagedFunctionRunner).RunFunction
+//@ props C03 C04
+//@ requires r != nil && r.client != nil && r.log != nil && r.conns != nil
+//@ requires forall k:string :: k in r.conns ==> r.conns[k] != nil
+//@ ghost rpcFailed bool = false
+//@ ghost rpcDone bool = false
+//@ let $rsp = result (*xfn.BetaFallBackFunctionRunnerServiceClient).RunFunction
+//@ site (*xfn.BetaFallBackFunctionRunnerServiceClient).RunFunction(_, _, $r, $o...) as run
+//@   assert [C04:function-is-sent-the-callers-request] $r == req
+//@   update rpcDone = true
+//@   update rpcFailed = err != nil
+//@ ensures [C03,C04:response-only-from-a-successful-rpc] err == nil ==> rpcDone && !rpcFailed && result == $rsp
